@@ -10,6 +10,7 @@ EXTRA_DESC = {
     "Kanal/Disp.lean": "Disp (the value passed to a send is disposed of exactly once on every path: never left in a MaybeUninit at return, never dropped after the peer took it)",
     "Kanal/Deliver.lean": "Deliver (a value the receive family takes out of the channel is delivered exactly once: nothing invented, lost or duplicated; drain_into's count is the number pushed)",
     "Kanal/WakerReg.lean": "WakerReg (every Pending poll leaves the waker it was given stored; the waker slot is written only unexposed or under the lock with the signal still listed)",
+    "Kanal/NoWaitLocked.lean": "NoWaitLocked (no translated function asks wait / wait_timeout / async_blocking_wait / poll while it holds the channel lock)",
     "Kanal/TieDiscipline.lean": "TieDiscipline (Own and NoDangle restated on the translated definitions)",
     "Kanal/TiePtr.lean": "TiePtr (pointer.rs translated: its operation lists compute the byte model's functions for every size, memory and word; a by-value argument is consumed exactly once)",
     "Kanal/Props/C07Pin.lean": "C07Pin (neither future is Unpin, whatever T; structural Unpin derivation over the extracted fields, cross-checked by 14 rustc probes)",
